@@ -878,7 +878,7 @@ def run(prop, ops_path, impl_path, profile):
                 case.forgot = True
             # `*dst = src.clone()` / `*dst = &a - &b`: the destination register now holds a container
             # of the source's capacity
-            if op == "clone" and len(toks) >= 3 and t["outcome"] == "ok":
+            if op in ("clone", "clone_from") and len(toks) >= 3 and t["outcome"] == "ok":
                 case.caps[toks[2]] = case.caps[reg]
             if op == "sub" and len(toks) >= 4 and t["outcome"] == "ok":
                 case.caps[toks[3]] = case.caps[reg]
@@ -909,7 +909,7 @@ def run(prop, ops_path, impl_path, profile):
                         alg_step(case, reg, toks, t, fails)
                     if "eq" in fam and op == "eq":
                         eq_step(case, reg, toks, t, fails)
-                    if "clone" in fam and op == "clone":
+                    if "clone" in fam and op in ("clone", "clone_from"):
                         clone_step(case, reg, toks, t, fails)
                     if "consume" in fam and op in ("drain", "into_iter"):
                         consume_step(case, reg, toks, t, fails)
